@@ -12,6 +12,18 @@ var Before = 1
 // :@S1@
 type Gamma interface {
 	Conv(*SrcG) *Dst
+	Mixin
+}
+
+// Mixin is no converter interface itself: the notations of ITS doc comment are nobody's defaults,
+// but its methods are Gamma's, with the doc comments (and notations) they are declared with.
+// :typecast
+// :skip V
+type Mixin interface {
+	// MixA is converted through the interface that embeds Mixin.
+	// :skip W
+	MixA(*SrcA) *Dst
+	MixB(*SrcA) *Dst
 }
 
 // :@S2@
@@ -30,6 +42,11 @@ type Convergen interface {
 type Beta interface {
 	Shared
 	Bee(*SrcB) *Dst
+}
+
+// :@S5@
+type Delta = interface {
+	Dee(*SrcA) *Dst
 }
 
 // convergen is NOT the reserved name (which is spelled Convergen) and carries no marker.
